@@ -363,6 +363,17 @@ fn intersect_pair(a: usize, b: usize, program: &mut Program) -> usize {
             if i1.name != i2.name || i1.fields.len() != i2.fields.len() {
                 return never;
             }
+            // Tuples whose field labels differ share no value. Keeping the left operand here would
+            // over-approximate the intersection, and the complement of a narrowed type that is too
+            // large subtracts values that never matched.
+            if i1
+                .fields
+                .iter()
+                .zip(i2.fields.iter())
+                .any(|((label1, _), (label2, _))| label1 != label2)
+            {
+                return never;
+            }
             let mut fields = Vec::with_capacity(i1.fields.len());
             for ((name, f1), (_, f2)) in i1.fields.iter().zip(i2.fields.iter()) {
                 let fi = intersect_types(*f1, *f2, program);
@@ -471,6 +482,17 @@ fn subtract_one(a: usize, b: usize, program: &mut Program) -> Vec<usize> {
                 return vec![a];
             };
             if i1.name != i2.name || i1.fields.len() != i2.fields.len() {
+                return vec![a];
+            }
+            // Tuples whose field labels differ share no value, so nothing is subtracted. (For
+            // cycle-free types the `types_overlap` shortcut above already returns; recursive
+            // types skip it and must not fall through to the field-wise difference.)
+            if i1
+                .fields
+                .iter()
+                .zip(i2.fields.iter())
+                .any(|((label1, _), (label2, _))| label1 != label2)
+            {
                 return vec![a];
             }
             // `[A] ∖ [b]` = union over i of `[A₀, …, Aᵢ∖bᵢ, …, Aₙ]`.
